@@ -26,7 +26,7 @@ RULE = ('each run = one generated content length/hash set/size hint/read-chunk s
         'update_entry_for_path, CLI hash); non-trivial = at least one short read actually '
         'happened or the length is at a buffering threshold or the hint is wrong; distinct '
         '= distinct seam event-log digest')
-PLAN = {'quick': {'n': 2400, 'budget_s': 50, 'block': 60},
+PLAN = {'quick': {'n': 6000, 'budget_s': 90, 'block': 60},
         'thorough': {'n': 60000, 'budget_s': 400, 'block': 200}}
 ASSUMPTIONS = ['hashlib one-shot digests are the reference',
                'WHIRLPOOL is not available in this interpreter: only its rejection is checked']
